@@ -41,7 +41,7 @@ func resolve(t *Tree, path []string) (*Node, string) {
 			return n, ""
 		}
 		if !n.isGraph() {
-			if n.Kind == "Z" {
+			if isPass(n.Kind) {
 				return nil, "below-passthrough"
 			}
 			return nil, "below-non-graph"
@@ -51,7 +51,7 @@ func resolve(t *Tree, path []string) (*Node, string) {
 	return nil, "unknown-node"
 }
 
-func hasCallbacks(n *Node) bool { return n.Kind != "Z" } // a passthrough runs no component, no callbacks demanded
+func hasCallbacks(n *Node) bool { return !isPass(n.Kind) } // a passthrough runs no component, no callbacks demanded
 
 func route(t *Tree, a Atom) *Route {
 	r := &Route{Reach: map[int][2]int{}, Must: map[int]bool{}, May: map[int]bool{}, AnyDesign: len(a.Paths) > 0}
@@ -114,7 +114,7 @@ func route(t *Tree, a Atom) *Route {
 			continue
 		}
 		if !accepts(n.Kind, a.T) {
-			if n.Kind == "Z" {
+			if isPass(n.Kind) {
 				r.Invalid = "wrong-type-passthrough"
 			} else {
 				r.Invalid = "wrong-type"
